@@ -1,13 +1,182 @@
-"""Native replayers: turn a recorded bounded case (or a counter-model) into a run of the real code."""
+"""Native replayers: turn a recorded bounded case or a solver counter-model into a run of the real code.
+
+Counter-models are replayed for functions whose parameters are primitive (str / bool / int / Optional of these): the model's values are
+passed to the REAL function (imported from the tree under test) and the contract is evaluated natively on what it returns. Contracts over
+graphs, sets and records are not translated back into inputs here; for those the bounded stand-ins of the property provide the failing
+input, or the violation is reported with `no-failing-input-found`."""
 from __future__ import annotations
+
+import ast
+import importlib
+import re
+import sys
+
+
+# ------------------------------------------------------------------ specification expression -> native evaluation
+class _Untranslatable(Exception):
+    pass
+
+
+def _eval_spec(reg, expr, env):
+    """Evaluate a quantifier-free specification expression natively. env: name -> python value."""
+    tree = reg.parse_spec(expr) if isinstance(expr, str) else expr
+
+    def ev(n, env):
+        if isinstance(n, ast.Constant):
+            return n.value
+        if isinstance(n, ast.Name):
+            if n.id in env:
+                return env[n.id]
+            if n.id in ("True", "False", "None"):
+                return {"True": True, "False": False, "None": None}[n.id]
+            raise _Untranslatable(n.id)
+        if isinstance(n, ast.BoolOp):
+            vals_ = [ev(v, env) for v in n.values]
+            return all(vals_) if isinstance(n.op, ast.And) else any(vals_)
+        if isinstance(n, ast.UnaryOp) and isinstance(n.op, ast.Not):
+            return not ev(n.operand, env)
+        if isinstance(n, ast.UnaryOp) and isinstance(n.op, ast.USub):
+            return -ev(n.operand, env)
+        if isinstance(n, ast.IfExp):
+            return ev(n.body, env) if ev(n.test, env) else ev(n.orelse, env)
+        if isinstance(n, ast.BinOp) and isinstance(n.op, (ast.Add, ast.Sub)):
+            a, b = ev(n.left, env), ev(n.right, env)
+            return a + b if isinstance(n.op, ast.Add) else a - b
+        if isinstance(n, ast.Compare):
+            left = ev(n.left, env)
+            for op, c in zip(n.ops, n.comparators):
+                right = ev(c, env)
+                ok = {ast.Eq: lambda: left == right, ast.NotEq: lambda: left != right, ast.Lt: lambda: left < right, ast.LtE: lambda: left <= right,
+                      ast.Gt: lambda: left > right, ast.GtE: lambda: left >= right, ast.In: lambda: left in right, ast.NotIn: lambda: left not in right,
+                      ast.Is: lambda: left is right, ast.IsNot: lambda: left is not right}[type(op)]()
+                if not ok:
+                    return False
+                left = right
+            return True
+        if isinstance(n, ast.Subscript):
+            v = ev(n.value, env)
+            if isinstance(n.slice, ast.Slice):
+                lo = ev(n.slice.lower, env) if n.slice.lower is not None else None
+                hi = ev(n.slice.upper, env) if n.slice.upper is not None else None
+                return v[lo:hi]
+            return v[ev(n.slice, env)]
+        if isinstance(n, ast.Call):
+            if isinstance(n.func, ast.Attribute) and n.func.attr in ("startswith", "endswith") and len(n.args) == 1:
+                return getattr(ev(n.func.value, env), n.func.attr)(ev(n.args[0], env))
+            if isinstance(n.func, ast.Name):
+                f = n.func.id
+                args = [ev(a, env) for a in n.args] if f not in reg.macros else None
+                if f in reg.macros:
+                    params, body = reg.macros[f]
+                    return ev(reg.parse_spec(body), dict(env, **dict(zip(params, [ev(a, env) for a in n.args]))))
+                if f == "is_none":
+                    return args[0] is None
+                if f == "unwrap":
+                    return args[0]
+                if f == "implies":
+                    return (not args[0]) or args[1]
+                if f == "iff":
+                    return bool(args[0]) == bool(args[1])
+                if f == "len":
+                    return len(args[0])
+                if f == "nonempty":
+                    return bool(args[0])
+                if f == "re_escape":
+                    return re.escape(args[0])
+                if f == "count_sep":
+                    return args[0].count(args[1])
+            raise _Untranslatable(ast.unparse(n.func))
+        raise _Untranslatable(type(n).__name__)
+    return ev(tree, env)
+
+
+_PRIM = {("str",), ("bool",), ("int",), ("opt", ("str",)), ("opt", ("int",)), ("opt", ("bool",)), ("node",)}
+
+
+def _model_values(model_text, c):
+    """Values of the contract's parameters in a z3 model (sexpr)."""
+    vals_ = {}
+    for m in re.finditer(r'\(define-fun \|?([^\s|]+)\|? \(\) (String|Bool|Int)\s+((?:"(?:[^"]|"")*")|true|false|-?\d+|\(- \d+\))\)', model_text or ""):
+        name, sort, v = m.group(1), m.group(2), m.group(3)
+        base = name.split("!")[0]
+        if sort == "String":
+            s = v[1:-1].replace('""', '"')
+            s = re.sub(r"\\u\{([0-9a-fA-F]+)\}", lambda mm: chr(int(mm.group(1), 16)), s)
+            val = s
+        elif sort == "Bool":
+            val = v == "true"
+        else:
+            val = int(v.replace("(- ", "-").replace(")", ""))
+        vals_.setdefault(base, val)
+    args = {}
+    for p, t in c.params.items():
+        if t[0] == "opt":
+            isnone = vals_.get(p + "_isnone", False)
+            args[p] = None if isnone else vals_.get(p, "" if t[1] == ("str",) else 0 if t[1] == ("int",) else False)
+        elif t in (("str",), ("node",)):
+            args[p] = vals_.get(p, "")
+        elif t == ("bool",):
+            args[p] = vals_.get(p, False)
+        else:
+            args[p] = vals_.get(p, 0)
+    return args
+
+
+def _real_callable(c):
+    sys.path.insert(0, __import__("pyvc.extract", fromlist=["REPO_SRC"]).REPO_SRC)
+    mod = importlib.import_module(c.module)
+    obj = mod
+    for part in c.qualname.split("."):
+        obj = getattr(obj, part)
+    return obj
+
+
+def _run_native(reg, c, args):
+    fn = _real_callable(c)
+    call_args = {k: v for k, v in args.items() if k not in ("self", "cls")}
+    try:
+        got = fn(**call_args)
+        raised = None
+    except Exception as e:  # noqa
+        got, raised = None, type(e).__name__
+    env = dict(args, result=got)
+    problems = []
+    if raised is not None:
+        allowed = [cond for exc, cond in c.raises if exc == raised]
+        if not allowed or not any(_eval_spec(reg, cond, args) for cond in allowed):
+            problems.append(f"raised {raised}, which the contract does not allow for this input")
+    else:
+        for exc, cond in c.raises:
+            if _eval_spec(reg, cond, args):
+                problems.append(f"returned normally although the contract says it raises {exc}")
+        if c.defn is not None:
+            want = _eval_spec(reg, c.defn, args)
+            if got != want:
+                problems.append(f"returned {got!r}, contract says {want!r}")
+        for e in c.ensures:
+            if not _eval_spec(reg, e, env):
+                problems.append(f"postcondition violated: {e[:120]}")
+    return got, raised, problems
 
 
 def try_native(pid, result, job, reg):
-    return None
+    """Replay the counter-model of a refuted obligation on the real function, when its parameters are primitive."""
+    c = reg.contracts.get(result.get("fn") or "")
+    if c is None or c.is_lemma or c.module is None or c.kind not in ("function", "classmethod", "staticmethod") or not result.get("model"):
+        return None
+    if any(t not in _PRIM for t in c.params.values()):
+        return None
+    try:
+        args = _model_values(result["model"], c)
+        got, raised, problems = _run_native(reg, c, args)
+    except _Untranslatable as e:
+        return dict(confirmed=False, reason=f"no-failing-input-found: contract not evaluable natively ({e})")
+    return dict(confirmed=bool(problems), input=dict(contract=c.key, args=args), observed=dict(returned=repr(got), raised=raised), problems=problems,
+                reason=None if problems else "no-failing-input-found: the real function satisfies its contract on the model's values (counterexample to the proof, not an input)")
 
 
 def rerun(rep):
-    """-> (ok, text): ok is True when the real code behaves as the property requires on the recorded input."""
+    """-> (ok, text): ok is True when the real code behaves as the property / contract requires on the recorded input."""
     if rep.get("kind") == "bounded":
         from native.registry import RERUN
         fn = RERUN.get(rep.get("check"))
@@ -15,4 +184,12 @@ def rerun(rep):
             return False, f"no replayer registered for {rep.get('check')}"
         ok, text = fn(rep["input"])
         return ok, f"{rep.get('check')} / {rep.get('case')}\ninput: {rep['input']}\n{text}\n" + ("property holds on this input" if ok else "PROPERTY VIOLATED on this input")
+    nat = rep.get("native") or {}
+    if nat.get("input") and nat["input"].get("contract"):
+        from pyvc import driver
+        reg = driver.load_contracts()
+        c = reg.contracts[nat["input"]["contract"]]
+        got, raised, problems = _run_native(reg, c, nat["input"]["args"])
+        text = f"{c.module}:{c.qualname}(**{nat['input']['args']!r}) -> returned {got!r}, raised {raised}\n" + ("\n".join(problems) if problems else "contract holds on this input")
+        return (not problems), text
     return False, "no replayer"
